@@ -1404,6 +1404,9 @@ func main() {
 			decisionFunc("driver/netconf/driver.go", "Driver.storeMessage"), decisionFunc("driver/netconf/driver.go", "Driver.getMessage"))
 		fmt.Fprintf(&sw, "(* driver/netconf/rpc.go Driver.sendRPC (the polling goroutine as one effect) *)\nDefinition send_rpc_code : list dstmt :=\n  %s.\n",
 			decisionFunc("driver/netconf/rpc.go", "Driver.sendRPC", "@opaque-go"))
+		fmt.Fprintf(&sw, "(* driver/netconf: buildFilterElem, buildDefaultsElem, buildGetElem, buildGetConfigElem *)\nDefinition nc_filter_elem_code : list dstmt :=\n  %s.\nDefinition nc_defaults_elem_code : list dstmt :=\n  %s.\nDefinition nc_get_elem_code : list dstmt :=\n  %s.\nDefinition nc_get_config_elem_code : list dstmt :=\n  %s.\n",
+			decisionFunc("driver/netconf/elements.go", "Driver.buildFilterElem"), decisionFunc("driver/netconf/elements.go", "Driver.buildDefaultsElem"),
+			decisionFunc("driver/netconf/get.go", "Driver.buildGetElem"), decisionFunc("driver/netconf/getconfig.go", "Driver.buildGetConfigElem"))
 		fmt.Fprintf(&sw, "(* driver/network/privilege.go Driver.buildPrivGraph, buildJoinedPromptPattern, UpdatePrivileges *)\nDefinition build_priv_graph_code : list dstmt :=\n  %s.\nDefinition build_joined_code : list dstmt :=\n  %s.\nDefinition update_privileges_code : list dstmt :=\n  %s.\n",
 			decisionFunc("driver/network/privilege.go", "Driver.buildPrivGraph"), decisionFunc("driver/network/privilege.go", "Driver.buildJoinedPromptPattern"), decisionFunc("driver/network/privilege.go", "Driver.UpdatePrivileges"))
 		fmt.Fprintf(&sw, "(* channel/write.go Channel.Write, WriteReturn, WriteAndReturn (the debug message is an effect here) *)\nDefinition chan_write_code : list dstmt :=\n  %s.\nDefinition chan_write_return_code : list dstmt :=\n  %s.\nDefinition chan_write_and_return_code : list dstmt :=\n  %s.\n",
